@@ -36,6 +36,25 @@ REREPS = ("split", "clean")
 NON_MUTATING = BINARY_OPERATORS + UNARY_OPERATORS + COPIES + UNARY_QUERIES + BINARY_QUERIES
 
 
+class ArgumentMutated(Exception):
+    """A query changed the Point2D object it was given."""
+
+
+def _ask_point(step, fn):
+    """Call fn(point) with the query point as a tuple or, when the step says so, as a
+    caller-owned Point2D object that must come back unchanged."""
+    p = pt(step["p"])
+    if step.get("pform") != "point2d":
+        return fn(p)
+    obj = Point2D(p[0], p[1])
+    before = (model._bit(obj[0]), model._bit(obj[1]))
+    res = fn(obj)
+    after = (model._bit(obj[0]), model._bit(obj[1]))
+    if after != before:
+        raise ArgumentMutated(f"the query moved the caller's point {before} -> {after}")
+    return res
+
+
 def num(x):
     return model.num_from_json(x)
 
@@ -150,9 +169,9 @@ def perform(step, objs):
     if op == "box":
         return a.box()
     if op == "in_point":
-        return pt(step["p"]) in a
+        return _ask_point(step, lambda q: q in a)
     if op == "contains_point":
-        return a.contains_point(pt(step["p"]), step["boundary"])
+        return _ask_point(step, lambda q: a.contains_point(q, step["boundary"]))
     if op == "points":
         return jordan_of(a, step["k"], step.get("kkey")).points(step["n"])
     if op == "seg_derivate":
